@@ -1054,6 +1054,34 @@ fn until_midchunk_case(start_back: u64, dist: u64) -> Case {
     Case { name: format!("until-midchunk-{start_back}-{dist}"), ops }
 }
 
+/// a string that straddles a chunk boundary, cached from an aligned two-chunk buffer; then a buffer that ends
+/// exactly at that boundary is registered over the string's start (range map: last insert wins); then the
+/// string is asked for again (string-cache hit). The cached location `(buffer, offset)` must be used as it is: a
+/// location re-derived from the range map points into the newer, shorter buffer.
+fn until_straddle_rebuffered_case(back: u64) -> Case {
+    let g = Gen { len: 4 * CH + 9, seed: 77, pat: 0, period: 1, bad_lo: 0, bad_hi: 0 };
+    let lo = 2 * CH - back;
+    // a delimiter whose first occurrence at or after `lo` lies beyond the chunk boundary
+    let mut p = 2 * CH + 20;
+    while p < 2 * CH + 300 && (lo..p).any(|i| gen_byte(&g, i) == gen_byte(&g, p)) {
+        p += 1;
+    }
+    let d = gen_byte(&g, p);
+    let ops = vec![
+        g.line(),
+        Op::Until(lo, lo + 4096, d).line(),       // fresh: buffer 0 = [CH, 3 CH), string [lo, p) cached
+        Op::Read(CH - 5, 10).line(),              // chunk 0 not cached: buffer 1 = [0, 2 CH) now answers for `lo`
+        Op::Until(lo, p + 1, d).line(),           // hit; the string ends beyond buffer 1
+        Op::Until(lo, 4 * CH, d).line(),
+        Op::Until(lo, p, d).line(),               // delimiter just outside
+        Op::Read(lo, p - lo + 3).line(),          // start in buffer 1, end beyond it: buffer 2 starts mid-chunk at `lo`
+        Op::Until(lo, lo + 4096, d).line(),
+        Op::VUntil(ViewSpec { base: Some((lo - 3, 1)), subs: [(3, 0), (0, 0), (0, 0)], k: 1 }, 0, 4096, d).line(),
+        Op::Until(lo + 1, lo + 4096, d).line(),   // other start: miss, served from buffer 2
+    ];
+    Case { name: format!("until-straddle-rebuffered-{back}"), ops }
+}
+
 pub struct C13;
 
 impl Prop for C13 {
@@ -1080,6 +1108,9 @@ impl Prop for C13 {
         }
         for &(back, dist) in &[(10, 500), (1, 4095), (2000, 2500), (4095, 4094), (300, 0)] {
             v.push(until_midchunk_case(back, dist));
+        }
+        for &back in &[10, 1, 40] {
+            v.push(until_straddle_rebuffered_case(back));
         }
         let mut r = Rng::new(0xC13);
         v.push(many_chunks_case(&mut r, if _tier == Tier::Quick { 400 } else { 1500 }));
